@@ -224,8 +224,9 @@ func (g *gen) next() []string {
 
 // ---------- dump ----------
 
-func dump(c *rconn) ([]string, error) {
-	to := 10 * time.Second
+func dump(c *rconn) ([]string, error) { return dumpTo(c, 10*time.Second) }
+
+func dumpTo(c *rconn, to time.Duration) ([]string, error) {
 	var out []string
 	typeCmd := map[string]string{"kv": "", "list": "l", "hash": "h", "set": "s"}
 	// HyperLogLog keys are served from a write cache and are not listed by a scan until they are flushed:
@@ -366,6 +367,7 @@ type child struct {
 	lines  chan string
 	exited chan struct{}
 	logf   string
+	port   int
 }
 
 func startChild(self string, cfg childCfg, evlog string, envCrash string, logPath string) (*child, error) {
@@ -403,7 +405,7 @@ func startChild(self string, cfg childCfg, evlog string, envCrash string, logPat
 	}
 	pr.Close()
 	outw.Close()
-	ch := &child{cmd: cmd, stdin: pw, lines: make(chan string, 64), exited: make(chan struct{}), logf: logPath}
+	ch := &child{cmd: cmd, stdin: pw, lines: make(chan string, 64), exited: make(chan struct{}), logf: logPath, port: cfg.Port}
 	go func() {
 		sc := bufio.NewScanner(outr)
 		sc.Buffer(make([]byte, 1<<20), 1<<24)
@@ -747,6 +749,19 @@ func markerAndDump(lv *live, g *gen, rec *RunRec) bool {
 	rec.Marker = &mk
 	if alive && mk.Status == "ack" {
 		d, err := dump(lv.c)
+		if ne, ok := err.(net.Error); ok && ne.Timeout() && lv.ch.alive() {
+			// a reply that did not come in 10 s from a child that is alive: a slow machine until shown otherwise.
+			// The connection is out of step after a timeout: a new one, and a budget of 90 s per command
+			if c2, e2 := dial(lv.ch.port, 10*time.Second); e2 == nil {
+				lv.c.close()
+				lv.c = c2
+				d, err = dumpTo(lv.c, 90*time.Second)
+				if ne, ok := err.(net.Error); ok && ne.Timeout() && lv.ch.alive() {
+					rec.Dump = []string{"DUMP-INCONCLUSIVE " + err.Error()}
+					return false
+				}
+			}
+		}
 		if err != nil {
 			alive = false
 			rec.Dump = []string{"DUMP-ERROR " + err.Error()}
